@@ -19,7 +19,7 @@ TECHNIQUE = ('exhaustive enumeration of measurement structures x spellings x can
 RULE = ('case = (domain, measurement structure, spelling class, metric); structures: all subsets of size <=3 of a 7-entry menu on '
         '(A,B,C) and all subsets of size <=4 (quick) / <=5 (thorough) of an 8-entry menu on (A,B,C,D) with sizes (3,2,2,3), which '
         'contains projections that fit several model cliques of different size; spellings: dense/sparse/operator/None x '
-        'tuple/list/str; candidates: uniform, BP of two generic potentials, plus an inconsistent perturbation for derivative tests. '
+        'tuple/list/str, and integer/bool/float32 element types of integer-valued queries; candidates: uniform, BP of two generic potentials, plus an inconsistent perturbation for derivative tests. '
         'non-trivial = >= 2 measurements; distinct = digest of the case.')
 LEVEL_TEXT = ('Complete enumeration of the stated structure menus; for each, the loss value is compared with an independent evaluation '
               'on the explicit joint, the gradient with exact central differences along every coordinate of the concatenated marginal '
@@ -34,7 +34,7 @@ SIZES4 = [3, 2, 2, 3]
 
 def bounds(tier):
     return {'menu3_subsets': '<=3 (63 structures)', 'menu4_subsets': '<=4 (162)' if tier == 'quick' else '<=5 (218)',
-            'spellings': '4 query kinds x 3 projection forms', 'metrics': ['L2', 'L1']}
+            'spellings': '4 query kinds x 3 projection forms + 4 element types (int64, bool, float32, sparse int64)', 'metrics': ['L2', 'L1']}
 
 
 # the same attribute set measured twice under different spellings of its order (within one model clique)
@@ -87,7 +87,18 @@ def respell(dense, qkind, pform):
         k = qkind
         if k == 'none' and not ident:
             k = 'dense'
-        Q = M.wrap(k, Qd.copy())
+        if k in ('int', 'bool', 'f32', 'sparse-int'):
+            # the same query spelled with another element type (only where the entries are representable exactly)
+            exact = np.array_equal(Qd, np.round(Qd)) and (k != 'bool' or set(np.unique(Qd)) <= {0.0, 1.0})
+            if not exact:
+                Q = Qd.copy()
+            elif k == 'sparse-int':
+                from scipy import sparse
+                Q = sparse.csr_matrix(Qd.astype(np.int64))
+            else:
+                Q = Qd.astype({'int': np.int64, 'bool': bool, 'f32': np.float32}[k])
+        else:
+            Q = M.wrap(k, Qd.copy())
         if pform == 'list':
             proj = list(cl)
         elif pform == 'str' and len(cl) == 1:
@@ -140,8 +151,8 @@ def check_structure(acc, domk, si, seed, tier):
     mu = cands[1][0]
     x0 = flat(mu, cl_list) + 0.3 * rng.randn(sum(model.domain.size(cl) for cl in cl_list))
     F = lambda v, metric=None: eng._marginal_loss(unflat(v, mu, cl_list), metric=metric)
-    l0, g0 = F(x0)
-    g0 = flat(g0, cl_list)
+    l0, G0 = F(x0)
+    g0 = flat(G0, cl_list)
     n = x0.size
     H = np.zeros((n, n))
     h = 0.5
@@ -156,6 +167,9 @@ def check_structure(acc, domk, si, seed, tier):
             fails.append(('gradient', 'L2 gradient coordinate %d is %.10g, central difference of the loss gives %.10g' % (i, g0[i], fd)))
             break
         H[:, i] = (flat(gp, cl_list) - g0) / h
+    # the gradient object handed out for x0 must still be the gradient at x0 after later evaluations (solvers keep it across their line search)
+    if np.abs(flat(G0, cl_list) - g0).max() > 0:
+        fails.append(('gradient-overwritten', 'the gradient returned for one point changed (by %.3g) after the loss was evaluated at other points' % np.abs(flat(G0, cl_list) - g0).max()))
     if np.abs(H - H.T).max() > 1e-7 * max(1.0, np.abs(H).max()):
         fails.append(('hessian-symmetry', 'finite-difference Hessian of the real gradient is not symmetric'))
     lam = float(np.linalg.eigvalsh((H + H.T) / 2).max())
@@ -180,8 +194,10 @@ def check_structure(acc, domk, si, seed, tier):
     # (c) spellings
     base_l, base_g = eng._marginal_loss(mu)
     base_g = flat(base_g, cl_list)
-    for qk in ('dense', 'sparse', 'linop', 'none'):
+    for qk in ('dense', 'sparse', 'linop', 'none', 'int', 'bool', 'f32', 'sparse-int'):
         for pf in ('tuple', 'list', 'str'):
+            if qk in ('int', 'bool', 'f32', 'sparse-int') and pf != 'tuple':
+                continue
             e2, ms2 = setup(attrs, sizes, respell(prob.dense, qk, pf), T, 'L2')
             if list(e2.model.cliques) != cl_list:
                 fails.append(('spelling', 'spelling %s/%s changed the model cliques' % (qk, pf)))
@@ -192,7 +208,7 @@ def check_structure(acc, domk, si, seed, tier):
             if not (abs(l2 - base_l) <= 1e-10 * max(1.0, abs(base_l)) and np.abs(g2 - base_g).max() <= 1e-10 * max(1.0, np.abs(base_g).max())):
                 fails.append(('spelling', 'spelling %s/%s gives loss %.12g vs %.12g, gradient diff %.3g' % (qk, pf, l2, base_l, np.abs(g2 - base_g).max())))
             L2 = float(e2._lipschitz(ms2))
-            if not abs(L2 - L) <= 1e-8 * max(1.0, L):
+            if not abs(L2 - L) <= (1e-5 if qk == 'f32' else 1e-8) * max(1.0, L):   # a float32 query makes eigsh work in single precision
                 fails.append(('spelling-lipschitz', 'spelling %s/%s gives smoothness constant %.10g vs %.10g' % (qk, pf, L2, L)))
     # the same projection measured several times with same-shaped but different queries (identity, weighted identity, prefix sums)
     dup = [c for c in set(struct) if list(struct).count(c) >= 2]
